@@ -111,6 +111,8 @@ const (
 
 type rig struct {
 	poolShutdownMs []int // see Batch.PoolShutdownMs
+	repushMs       []int // see Batch.RepushMs
+	clusterCfg     v2.Cluster
 	t              ev.TB
 	part           string
 	su             Setup
@@ -226,6 +228,7 @@ func newRig(t ev.TB, part string, su Setup) (r *rig, err error) {
 				cl.CirBreThresholds = v2.CircuitBreakers{Thresholds: []v2.Thresholds{{MaxRequests: su.Thr[thrReq],
 					MaxPendingRequests: su.Thr[thrPend], MaxRetries: su.Thr[thrRetr], MaxConnections: su.Thr[thrConn]}}}
 			}
+			r.clusterCfg = *cl
 		}})
 	if err != nil {
 		r.close()
@@ -446,8 +449,16 @@ type obs struct {
 }
 
 func (r *rig) observe() obs {
-	rm := r.info.ResourceManager()
-	st := r.info.Stats()
+	// the cluster's CURRENT info: a cluster delivered again gets a new info object, whose resource manager is the one the
+	// next request is admitted by
+	info := r.info
+	if len(r.repushMs) > 0 {
+		if snap := cluster.GetClusterMngAdapterInstance().GetClusterSnapshot(context.Background(), r.c.ClusterName); snap != nil {
+			info = snap.ClusterInfo()
+		}
+	}
+	rm := info.ResourceManager()
+	st := info.Stats()
 	o := obs{Req: rm.Requests().Cur(), Pend: rm.PendingRequests().Cur(), Retr: rm.Retries().Cur(), Conn: rm.Connections().Cur(),
 		CluReqAct: st.UpstreamRequestActive.Count(), CluConnAct: st.UpstreamConnectionActive.Count(),
 		LsnReqAct:  r.lsn.Counter(metrics.DownstreamRequestActive).Count(),
